@@ -22,7 +22,7 @@
 #include "c14.hpp"
 using namespace c14;
 #ifndef XF_GROUP
-#error "compile with -DXF_GROUP=1..9 (1 geometry, 2 sub/subsample/nth, 3 cc, 4 ccx, 5 any_color_converted_view, 6..9 compositions by first op)"
+#error "compile with -DXF_GROUP=1..13 (1 geometry, 2 sub/subsample/nth, 3 cc, 4 ccx, 5 any_color_converted_view, 6..13 compositions: one first op each)"
 #endif
 
 template <typename P> struct pinfo;
@@ -163,19 +163,19 @@ template <typename F> bool with_geom(std::vector<std::string> const& a, size_t& 
     auto N = [&](size_t k) { return (std::ptrdiff_t)hv::to_ll(a.at(k)); };
     std::string const& o = a.at(i);
     if ((group == 0 || group == 6) && o == "flipud")   { ++i; f(FlipUD()); return true; }
-    if ((group == 0 || group == 6) && o == "fliplr")   { ++i; f(FlipLR()); return true; }
-    if ((group == 0 || group == 7) && o == "rot90cw")  { ++i; f(Rot90cw()); return true; }
-    if ((group == 0 || group == 7) && o == "rot90ccw") { ++i; f(Rot90ccw()); return true; }
-    if ((group == 0 || group == 8) && o == "rot180")   { ++i; f(Rot180()); return true; }
-    if ((group == 0 || group == 8) && o == "transpose") { ++i; f(Transposed()); return true; }
-    if ((group == 0 || group == 9) && o == "sub" && i + 4 < a.size())  { Sub op; op.x0 = N(i + 1); op.y0 = N(i + 2); op.w = N(i + 3); op.h = N(i + 4); i += 5; f(op); return true; }
-    if ((group == 0 || group == 9) && o == "subs" && i + 2 < a.size()) { Subs op; op.sx = N(i + 1); op.sy = N(i + 2); i += 3; f(op); return true; }
+    if ((group == 0 || group == 7) && o == "fliplr")   { ++i; f(FlipLR()); return true; }
+    if ((group == 0 || group == 8) && o == "rot90cw")  { ++i; f(Rot90cw()); return true; }
+    if ((group == 0 || group == 9) && o == "rot90ccw") { ++i; f(Rot90ccw()); return true; }
+    if ((group == 0 || group == 10) && o == "rot180")   { ++i; f(Rot180()); return true; }
+    if ((group == 0 || group == 11) && o == "transpose") { ++i; f(Transposed()); return true; }
+    if ((group == 0 || group == 12) && o == "sub" && i + 4 < a.size())  { Sub op; op.x0 = N(i + 1); op.y0 = N(i + 2); op.w = N(i + 3); op.h = N(i + 4); i += 5; f(op); return true; }
+    if ((group == 0 || group == 13) && o == "subs" && i + 2 < a.size()) { Subs op; op.sx = N(i + 1); op.sy = N(i + 2); i += 3; f(op); return true; }
     return false;
 }
 
 int main() {
     return hv::run([](std::string const& line) -> std::string {
-        auto a = hv::words(line);
+        auto a = op_words(line);
 #if XF_GROUP >= 6
         if (a.size() >= 8 && a[0] == "xf2") {
             std::string T = a[1]; std::ptrdiff_t w = hv::to_ll(a[2]), h = hv::to_ll(a[3]); uint64_t s = hv::to_ull(a[4]);
